@@ -1,6 +1,11 @@
 (* C32 IVF writer output reads back as the written frames.
-   Statements only; proofs live in Proofs/Ivf.v. *)
-From Coq Require Import List NArith.
+   Statements only; proofs live in Proofs/Ivf.v.
+
+   [pkt] is a packet descriptor: what pion/rtp's depacketizer returned for the
+   packet (assumed contract), [frames_of o ps] the list of writeFrame calls
+   the writer model makes on the stream [ps], [written o ps seekable] the
+   bytes in the output after Close. *)
+From Coq Require Import String List NArith.
 Import ListNotations.
 From Verif Require Import Common.Base Model.Ivf Proofs.Ivf.
 Open Scope N_scope.
@@ -10,3 +15,50 @@ Theorem ivf_le_roundtrip : forall w n,
   n < 2 ^ (8 * N.of_nat w) -> le_val (le_bytes w n) = n /\ length (le_bytes w n) = w.
 Proof. intros w n H; split; [exact (le_roundtrip w n H) | exact (le_bytes_length w n)]. Qed.
 Print Assumptions ivf_le_roundtrip.
+
+(* For every descriptor stream (starting at a keyframe or not), every option
+   set with non-zero timebase, seekable output or not: the reader returns
+   exactly the frames handed to writeFrame, in order, each with its size and
+   with the timestamp pts*den/num (uint64), and then EOF.
+   Bound in the statement: frames shorter than 2^32 bytes (the size field). *)
+Theorem c32_roundtrip : forall o ps seekable,
+  opts_ok o ->
+  Forall (fun f => N.of_nat (length (f_bytes f)) < 4294967296) (frames_of o ps) ->
+  exists h,
+    read_file (written o ps seekable)
+    = Ok (h, map (read_back o) (frames_of o ps), "EOF"%string).
+Proof. intros o ps seekable Hok Hl. eexists. exact (roundtrip o ps seekable Hok Hl). Qed.
+Print Assumptions c32_roundtrip.
+
+(* header: FourCC of the codec, size and timebase as configured; the count
+   field is the number of frames (mod 2^32) iff the output seeks, else the
+   placeholder 900 the code writes *)
+Theorem c32_header : forall o ps seekable,
+  opts_ok o ->
+  Forall (fun f => N.of_nat (length (f_bytes f)) < 4294967296) (frames_of o ps) ->
+  exists frs e,
+    read_file (written o ps seekable)
+    = Ok (mkFhdr (fourcc (o_codec o)) (o_width o) (o_height o) (o_den o) (o_num o)
+                 (if seekable then N.of_nat (length (frames_of o ps)) mod 4294967296 else 900)
+                 32 0, frs, e).
+Proof. intros o ps seekable Hok Hl. do 2 eexists. exact (roundtrip_header o ps seekable Hok Hl). Qed.
+Print Assumptions c32_header.
+
+(* WriteRTP never panics once NewWith accepted the options (after fix 73900d2;
+   before it a VP8 descriptor with an empty payload indexed out of range) *)
+Theorem c32_no_panic : forall o ps,
+  o_den o <> 0 -> ~ In SPanic (snd (run_packets o (init_state o) ps)).
+Proof. intros o ps H. exact (run_packets_no_panic o ps (init_state o) H). Qed.
+Print Assumptions c32_no_panic.
+
+(* premises are satisfiable on a non-trivial stream: VP8 keyframe in two
+   packets, then an interframe; timestamps across 2^32 *)
+Example c32_example :
+  let o := mkOpts VP8 640 480 1 30 false in
+  let ps := [mkPkt 4294967000 false false false true false [156; 1; 2];
+             mkPkt 4294967000 true false false false false [3; 4];
+             mkPkt 2704 true false false true false [157; 7]] in
+  opts_ok o /\
+  map f_bytes (frames_of o ps) = [[156; 1; 2; 3; 4]; [157; 7]] /\
+  map f_pts (frames_of o ps) = [0; 1].
+Proof. cbv zeta. repeat split; try (vm_compute; congruence); vm_compute; reflexivity. Qed.
